@@ -112,7 +112,7 @@ def audit_proofs(pid):
             if b.startswith('Closed'):
                 detail[nm] = 'closed'
             else:
-                axs = re.findall(r'^([A-Za-z_][\w.]*)\s*:', b, flags=re.M)
+                axs = [a for a in re.findall(r'^([A-Za-z_][\w.]*)\s*:', b, flags=re.M) if a != 'Axioms']
                 bad = [a for a in axs if a not in ALLOWED_AXIOMS]
                 detail[nm] = 'axioms: ' + ', '.join(axs)
                 if bad:
